@@ -10,7 +10,7 @@ from mc.solo import Solo
 RULE = ('SEQ: one real RSocketServer whose transport drain completes only on an explicit tx event; enqueue operations on '
         'streams {2,4} x kinds {small payload, 3-fragment payload, 2-fragment payload+complete, complete, error, cancel, '
         'request-n} through the endpoint\'s own send_payload/send_complete/send_error/'
-        'send_frame, fs=64, both framings; ALL interleavings of <=3 (thorough 4) enqueues with the tx steps needed to drain; '
+        'send_frame and send_priority_frame (a KEEPALIVE inserted at any position), fs=64, both framings; ALL interleavings of <=3 (thorough 4) enqueues with the tx steps needed to drain; '
         'each emitted frame is attributed to its source by content; non-trivial = schedule in which an enqueue happens while '
         'a fragmented frame of the same stream is partially sent; states = distinct (queue profile, blocked?) at choice points')
 EXPLANATION = 'complete enumeration of interleavings (stateless DFS with replay); oracle = per-stream source order, fragment contiguity, reassembly on the real cache'
@@ -31,10 +31,10 @@ def make_units(tier):
     units = []
     for flavour in ('tcp', 'msg'):
         kinds = KINDS_FULL
-        alpha = [(k, s) for s in (2, 4) for k in kinds]
+        alpha = [(k, s) for s in (2, 4) for k in kinds] + [('PRIO', 0)]  # PRIO = send_priority_frame(KEEPALIVE)
         for first in alpha:
             for second in alpha:
-                units.append({'flavour': flavour, 'prefix': [list(first), list(second)], 'n': 3, 'kinds': list(kinds), 'prio': tier == 'thorough'})
+                units.append({'flavour': flavour, 'prefix': [list(first), list(second)], 'n': 3, 'kinds': list(kinds), 'prio': True})
         if tier == 'thorough':
             alpha4 = [(k, s) for s in (2, 4) for k in KINDS_QUICK]
             for a, b_ in itertools.product(alpha4, alpha4):
@@ -211,7 +211,7 @@ def explore(flavour, ops, part):
 
 def run_unit(unit, part):
     kinds = unit['kinds']
-    alpha = [(k, s) for s in (2, 4) for k in kinds]
+    alpha = [(k, s) for s in (2, 4) for k in kinds] + ([('PRIO', 0)] if unit.get('prio') else [])
     pre = [tuple(x) for x in unit['prefix']]
     rest = unit['n'] - len(pre)
     for tail in itertools.product(alpha, repeat=rest):
@@ -219,8 +219,6 @@ def run_unit(unit, part):
         if not any(k in ('F3', 'F2C') for k, _ in ops):
             continue  # without a fragmented frame every schedule is trivially ordered; covered by the others
         explore(unit['flavour'], ops, part)
-        if unit.get('prio') and ops[0][0] in ('F3', 'F2C'):
-            explore(unit['flavour'], ops[:2] + [('PRIO', 0)] + ops[2:], part)
     part.sample({'flavour': unit['flavour'], 'ops_prefix': unit['prefix'], 'enqueues': unit['n']}, limit=2)
 
 
